@@ -1151,6 +1151,10 @@ func (ev *Evaluator) call(c *grl.Call) (Val, error) {
 			if len(args) == 2 && args[0].K == VInt && args[1].K == VInt {
 				return IntV(args[0].I + args[1].I), nil
 			}
+		case "GetI":
+			if len(args) == 0 {
+				return IntV(f.I), nil
+			}
 		case "IsPos":
 			if len(args) == 1 && args[0].K == VInt {
 				return BoolV(args[0].I > 0), nil
